@@ -22,10 +22,12 @@ import (
 	"math"
 	"net"
 	"net/http"
+	"net/http/httptest"
 	neturl "net/url"
 	"os"
 	"strconv"
 	"strings"
+	"sync"
 	"syscall"
 	"testing"
 	"testing/synctest"
@@ -68,10 +70,10 @@ type scriptCase struct {
 	Max      int64       `json:"max"`
 	Tbl      []int64     `json:"tbl"`
 	Dflt     int64       `json:"dflt"`
-	Cancel   int64       `json:"cancel"` // <0: none
+	Cancel   int64       `json:"cancel"` // instant the context ends; -1: never; another negative value: before the call
 	Deadline bool        `json:"deadline"`
 	Body     string      `json:"body"`            // N | R | O | G<k>
-	Manifest string      `json:"manifest"`        // "" | M (auth client) | m (plain client)
+	Manifest string      `json:"manifest"`        // "" | M (auth client) | m (plain client) | I / i: the same with an OCI image manifest
 	UnknownLen bool      `json:"unknown_len"`     // leave Request.ContentLength at 0 ("unknown") although the body is not empty
 	Pred     string      `json:"pred"`            // "" = retry.DefaultPredicate; else <code><R|S|F>,...;d<rule>;e<rule>
 	Method   string      `json:"method"`          // HTTP method ("" = PUT)
@@ -81,6 +83,8 @@ type scriptCase struct {
 	BigLen   int         `json:"big_len"`         // >0: data is generated (pattern), oracle only
 	Script   []behaviour `json:"script"`
 }
+
+func (c *scriptCase) hasCancel() bool { return c.Cancel != -1 }
 
 func (b behaviour) outString() string {
 	if sh := b.shape(); sh != nil {
@@ -125,7 +129,7 @@ func (c *scriptCase) data() []byte {
 
 func (c *scriptCase) modelLine() string {
 	cn := "-"
-	if c.Cancel >= 0 {
+	if c.hasCancel() {
 		cn = fmt.Sprintf("%d:c", c.Cancel)
 		if c.Deadline {
 			cn = fmt.Sprintf("%d:d", c.Cancel)
@@ -244,6 +248,8 @@ func (b behaviour) shape() *errShape {
 	return nil
 }
 
+const indexedManifestJSON = `{"schemaVersion":2,"mediaType":"application/vnd.oci.image.manifest.v1+json","config":{"mediaType":"application/vnd.oci.empty.v1+json","digest":"sha256:44136fa355b3678a1146ad16f7e8649e94fb4fc21fe77e8310c060f61caaff8a","size":2},"layers":[]}`
+
 var errPred = errors.New("scripted: predicate refuses this answer")
 
 type attemptRec struct {
@@ -251,6 +257,9 @@ type attemptRec struct {
 	got  []byte
 	auth string // Authorization header of the request
 	method string
+	ctxEnded bool // the request's context had already ended when the request reached the server
+	url, ctype string
+	clen       int64 // Request.ContentLength as the transport would frame the body
 	beh  behaviour
 }
 
@@ -263,6 +272,12 @@ type server struct {
 	log    []attemptRec
 	tokens int
 	lastShape *errShape // shape of the error returned for the last scripted request (nil: a response)
+	lastCode  int       // status of the last scripted response
+	// scripted token service (token scenarios only)
+	tokenScripted bool
+	tokenScript   []behaviour
+	tokenPos      int
+	tokenLog      []attemptRec
 }
 
 func (s *server) RoundTrip(req *http.Request) (*http.Response, error) {
@@ -270,6 +285,38 @@ func (s *server) RoundTrip(req *http.Request) (*http.Response, error) {
 		return &http.Response{StatusCode: code, Status: fmt.Sprintf("%d %s", code, http.StatusText(code)),
 			Proto: "HTTP/1.1", ProtoMajor: 1, ProtoMinor: 1, Header: http.Header{},
 			Body: io.NopCloser(strings.NewReader(body)), ContentLength: int64(len(body)), Request: req}
+	}
+	if req.URL.Host == tokenHost && s.tokenScripted {
+		// a scripted token service: the token request is a request of the same stack
+		b := behaviour{Kind: "S", Code: 200, Read: -1}
+		if s.tokenPos < len(s.tokenScript) {
+			b = s.tokenScript[s.tokenPos]
+		}
+		s.tokenPos++
+		rec := attemptRec{t: int64(time.Since(s.start)), method: req.Method, beh: b, url: req.URL.String(),
+			ctype: req.Header.Get("Content-Type"), clen: req.ContentLength}
+		if req.Body != nil {
+			if b.Read < 0 {
+				rec.got, _ = io.ReadAll(req.Body)
+			} else {
+				buf := make([]byte, b.Read)
+				n, _ := io.ReadFull(req.Body, buf)
+				rec.got = buf[:n]
+			}
+			req.Body.Close()
+		}
+		s.tokenLog = append(s.tokenLog, rec)
+		if b.Lat > 0 {
+			time.Sleep(time.Duration(b.Lat))
+		}
+		if sh := b.shape(); sh != nil {
+			return nil, sh.err
+		}
+		if b.Code != 200 {
+			return mk(b.Code, ""), nil
+		}
+		s.tokens++
+		return mk(200, fmt.Sprintf(`{"access_token":"tok%d","token":"tok%d"}`, s.tokens, s.tokens)), nil
 	}
 	if req.URL.Host == tokenHost {
 		if req.Body != nil {
@@ -284,7 +331,8 @@ func (s *server) RoundTrip(req *http.Request) (*http.Response, error) {
 		b = s.script[s.pos]
 	}
 	s.pos++
-	rec := attemptRec{t: int64(time.Since(s.start)), auth: req.Header.Get("Authorization"), method: req.Method, beh: b}
+	rec := attemptRec{t: int64(time.Since(s.start)), auth: req.Header.Get("Authorization"), method: req.Method, beh: b,
+		url: req.URL.String(), ctype: req.Header.Get("Content-Type"), clen: req.ContentLength}
 	if req.Body != nil {
 		if b.Read < 0 {
 			rec.got, _ = io.ReadAll(req.Body)
@@ -295,7 +343,13 @@ func (s *server) RoundTrip(req *http.Request) (*http.Response, error) {
 		}
 		req.Body.Close()
 	}
+	rec.ctxEnded = req.Context().Err() != nil
 	s.log = append(s.log, rec)
+	if rec.ctxEnded {
+		// like net/http's transport: nothing is done for a request whose context has ended
+		s.lastShape = nil
+		return nil, req.Context().Err()
+	}
 	if b.Lat > 0 {
 		tm := time.NewTimer(time.Duration(b.Lat))
 		select {
@@ -309,6 +363,7 @@ func (s *server) RoundTrip(req *http.Request) (*http.Response, error) {
 	if s.lastShape != nil {
 		return nil, s.lastShape.err
 	}
+	s.lastCode = b.Code
 	resp := mk(b.Code, "")
 	if b.Code == 202 && req.Method == http.MethodPost {
 		resp.Header.Set("Location", "/v2/r/blobs/uploads/session-1") // blob upload session
@@ -340,7 +395,10 @@ type scriptObs struct {
 	panicv any
 }
 
-func classify(resp *http.Response, err error, last *errShape) string {
+// rewindHint: the class of an otherwise unknown error when the last scripted answer was a 401
+// (the only error the auth client produces by itself then is its refusal to re-send a body it
+// cannot rewind) -- keeps the classification independent of the wording of that error.
+func classify(resp *http.Response, err error, last *errShape, rewindHint string) string {
 	if err == nil {
 		if resp == nil {
 			return "NILNIL"
@@ -363,7 +421,23 @@ func classify(resp *http.Response, err error, last *errShape) string {
 	case strings.Contains(err.Error(), "failed to get request body"):
 		return "EGETBODY"
 	}
+	if rewindHint != "" {
+		return rewindHint
+	}
 	return "E?" + strings.ReplaceAll(err.Error(), " ", "_")
+}
+
+func (s *server) rewindHint(c *scriptCase) string {
+	if s.lastCode != 401 || s.lastShape != nil {
+		return ""
+	}
+	switch c.Body[0] {
+	case 'O':
+		return "ENOTREWINDABLE"
+	case 'G':
+		return "EGETBODY"
+	}
+	return ""
 }
 
 func predToken(p string) string {
@@ -437,7 +511,7 @@ func execScript(t *testing.T, c *scriptCase) scriptObs {
 	synctest.Test(t, func(t *testing.T) {
 		srv := &server{start: time.Now(), script: c.Script}
 		var authClient *auth.Client
-		if c.Op == "A" || c.Op == "W" || c.Op == "U" || c.PreAuth {
+		if c.Op == "A" || c.Op == "W" || c.Op == "V" || c.Op == "U" || c.Op == "X" || c.PreAuth {
 			authClient = &auth.Client{Cache: auth.NewCache(),
 				Credential: auth.StaticCredential("registry.example", auth.Credential{Username: "u", Password: "p"})}
 		}
@@ -455,19 +529,48 @@ func execScript(t *testing.T, c *scriptCase) scriptObs {
 			srv.script, srv.pos, srv.log, srv.start = c.Script, 0, nil, time.Now()
 		}
 		ctx := context.Background()
+		if c.Op == "V" || c.Op == "X" {
+			// the cache holds a Bearer token under the request's own scope key: the first send of the
+			// request under test already carries it (the normal state within a push session)
+			scope := "repository:r:pull"
+			if c.Op == "X" {
+				scope = "repository:r:pull,push" // what blobStore.Push appends
+			}
+			wctx := auth.WithScopes(context.Background(), scope)
+			authClient.Client = &http.Client{Transport: srv}
+			srv.script = []behaviour{{Kind: "S", Code: 401, Chal: 2, Read: -1}, {Kind: "S", Code: 200, Read: -1}}
+			wreq, _ := http.NewRequestWithContext(wctx, http.MethodGet, "http://registry.example/v2/", nil)
+			wresp, werr := authClient.Do(wreq)
+			if werr != nil || wresp.StatusCode != 200 {
+				panic(fmt.Sprint("warm-up failed: ", werr))
+			}
+			wresp.Body.Close()
+			srv.script, srv.pos, srv.log, srv.start = c.Script, 0, nil, time.Now()
+			if c.Op == "V" {
+				ctx = auth.WithScopes(ctx, scope)
+			}
+		}
 		var cancel context.CancelFunc = func() {}
-		if c.Cancel >= 0 {
+		if c.hasCancel() {
 			if c.Deadline {
 				ctx, cancel = context.WithDeadline(ctx, srv.start.Add(time.Duration(c.Cancel)))
 			} else {
 				ctx, cancel = context.WithCancel(ctx)
-				tm := time.AfterFunc(time.Duration(c.Cancel), cancel)
-				defer tm.Stop()
+				if c.Cancel < 0 {
+					cancel() // ended before the call
+				} else {
+					tm := time.AfterFunc(time.Duration(c.Cancel), cancel)
+					defer tm.Stop()
+				}
 			}
 		}
 		defer cancel()
 		pol := c.policy()
-		hc := &http.Client{Transport: &retry.Transport{Base: srv, Policy: func() retry.Policy { return pol }}}
+		rt := &retry.Transport{Base: srv, Policy: func() retry.Policy { return pol }}
+		if c.DefaultPolicy {
+			rt = retry.NewTransport(srv) // Policy nil: the transport falls back to retry.DefaultPolicy
+		}
+		hc := &http.Client{Transport: rt}
 		var client remote.Client = hc
 		if authClient != nil {
 			authClient.Client = hc
@@ -480,7 +583,7 @@ func execScript(t *testing.T, c *scriptCase) scriptObs {
 					obs.res = "PANIC"
 				}
 			}()
-			if c.Op == "U" || c.Op == "u" {
+			if c.Op == "U" || c.Op == "u" || c.Op == "X" {
 				// blob push through the Repository: POST (no body), then PUT with the blob
 				repo, err := remote.NewRepository("registry.example/r")
 				if err != nil {
@@ -498,7 +601,7 @@ func execScript(t *testing.T, c *scriptCase) scriptObs {
 				if err == nil {
 					obs.res = "RESP201"
 				} else {
-					obs.res = classify(nil, err, srv.lastShape)
+					obs.res = classify(nil, err, srv.lastShape, srv.rewindHint(c))
 				}
 				return
 			}
@@ -509,7 +612,11 @@ func execScript(t *testing.T, c *scriptCase) scriptObs {
 				}
 				repo.PlainHTTP = true
 				repo.Client = client
-				desc := ocispec.Descriptor{MediaType: "application/vnd.docker.distribution.manifest.v2+json",
+				mt := "application/vnd.docker.distribution.manifest.v2+json"
+				if c.Manifest == "I" || c.Manifest == "i" {
+					mt = ocispec.MediaTypeImageManifest // pushWithIndexing reads the content into memory first
+				}
+				desc := ocispec.Descriptor{MediaType: mt,
 					Digest: digest.Digest("sha256:" + hex.EncodeToString(sha256Sum(data))), Size: int64(len(data))}
 				var rd io.Reader = bytes.NewReader(data)
 				if c.Body == "O" {
@@ -519,7 +626,7 @@ func execScript(t *testing.T, c *scriptCase) scriptObs {
 				if err == nil {
 					obs.res = "RESP201"
 				} else {
-					obs.res = classify(nil, err, srv.lastShape)
+					obs.res = classify(nil, err, srv.lastShape, srv.rewindHint(c))
 				}
 				return
 			}
@@ -533,6 +640,12 @@ func execScript(t *testing.T, c *scriptCase) scriptObs {
 			switch c.Body[0] {
 			case 'N':
 				req, err = http.NewRequestWithContext(ctx, method, url, nil)
+			case 'B':
+				// Body == http.NoBody and GetBody == nil (what NewRequest makes of http.NoBody)
+				req, err = http.NewRequestWithContext(ctx, method, url, http.NoBody)
+				if req.GetBody != nil || req.Body != http.NoBody {
+					panic("http.NewRequest(.., http.NoBody) no longer yields Body == NoBody without GetBody")
+				}
 			case 'R':
 				req, err = http.NewRequestWithContext(ctx, method, url, bytes.NewReader(data))
 			case 'O':
@@ -562,7 +675,7 @@ func execScript(t *testing.T, c *scriptCase) scriptObs {
 				req.Header.Set("Authorization", "Bearer preset")
 			}
 			resp, err := client.Do(req)
-			obs.res = classify(resp, err, srv.lastShape)
+			obs.res = classify(resp, err, srv.lastShape, srv.rewindHint(c))
 			if resp != nil {
 				resp.Body.Close()
 			}
@@ -630,7 +743,7 @@ func scriptCaseRun(t *testing.T, c *scriptCase) {
 	if c.Op != "T" {
 		line += " second=" + showAttempts(sends[1], data) + " third=" + showAttempts(sends[2], data)
 	}
-	upload := c.Op == "U" || c.Op == "u"
+	upload := c.Op == "U" || c.Op == "u" || c.Op == "X"
 	if upload {
 		// sends of a blob push: POST (as sent first / re-sent after a challenge), PUT (same)
 		sends = make([][]attemptRec, 4)
@@ -663,7 +776,7 @@ func scriptCaseRun(t *testing.T, c *scriptCase) {
 	run.Count("body_" + c.Body[:1])
 	run.Count("result_" + strings.TrimRight(obs.res, "0123456789"))
 	run.Count(fmt.Sprintf("attempts_%d", len(obs.log)))
-	if c.Cancel >= 0 {
+	if c.hasCancel() {
 		run.Count("with_cancel")
 	}
 	if len(obs.log) > 1 {
@@ -681,7 +794,7 @@ func scriptCaseRun(t *testing.T, c *scriptCase) {
 	// O1: what the registry received on every attempt
 	for i, r := range obs.log {
 		want := data
-		if c.Body[0] == 'N' || upload && r.method == http.MethodPost {
+		if c.Body[0] == 'N' || c.Body[0] == 'B' || upload && r.method == http.MethodPost {
 			want = nil
 		}
 		if r.beh.Read >= 0 && r.beh.Read < len(want) {
@@ -690,6 +803,29 @@ func scriptCaseRun(t *testing.T, c *scriptCase) {
 		if !bytes.Equal(r.got, want) {
 			fail("body-truncated", fmt.Sprintf("attempt %d received %d bytes (prefix ok=%v), the body has %d and the server read up to %d",
 				i, len(r.got), bytes.HasPrefix(data, r.got), len(data), r.beh.Read))
+			break
+		}
+	}
+	// O1b: a re-sent request is the same request: method, URL, Content-Type as on the first attempt
+	// with that method, and the Content-Length the caller (generator) gave it -- a real transport
+	// frames the body by it, so a stale or reset value truncates or breaks the upload
+	firstOf := map[string]attemptRec{}
+	for i, r := range obs.log {
+		f, seen := firstOf[r.method]
+		if !seen {
+			firstOf[r.method] = r
+			f = r
+		}
+		if r.url != f.url || r.ctype != f.ctype {
+			fail("request-changed", fmt.Sprintf("attempt %d: %s %s (Content-Type %q) differs from the first %s %s (%q)", i, r.method, r.url, r.ctype, f.method, f.url, f.ctype))
+			break
+		}
+		wantLen := int64(len(data))
+		if c.Body[0] == 'N' || c.Body[0] == 'B' || c.UnknownLen || upload && r.method == http.MethodPost {
+			wantLen = 0
+		}
+		if r.clen != wantLen {
+			fail("request-changed", fmt.Sprintf("attempt %d: Content-Length %d, the request was built with %d", i, r.clen, wantLen))
 			break
 		}
 	}
@@ -709,7 +845,15 @@ func scriptCaseRun(t *testing.T, c *scriptCase) {
 			if !retryableTruth(c.Pred, send[i].beh) {
 				fail("nonretryable-retried", fmt.Sprintf("send %d attempt %d got %s and was followed by another attempt", si, i, outcomeTruth(c.Pred, send[i].beh)))
 			}
-			pause := send[i+1].t - (send[i].t + send[i].beh.Lat)
+			prevEnd := send[i].t + send[i].beh.Lat
+			if c.hasCancel() && c.Cancel < prevEnd {
+				// the context ended while the server was busy: the attempt was over at that instant
+				prevEnd = c.Cancel
+				if prevEnd < send[i].t {
+					prevEnd = send[i].t
+				}
+			}
+			pause := send[i+1].t - prevEnd
 			if c.Min <= c.Max && (pause < c.Min || pause > c.Max) {
 				fail("pause-bounds", fmt.Sprintf("send %d pause after attempt %d is %d, outside [%d,%d]", si, i, pause, c.Min, c.Max))
 			}
@@ -728,7 +872,7 @@ func scriptCaseRun(t *testing.T, c *scriptCase) {
 	}
 	switch c.Body[0] {
 	case 'O':
-		if c.Manifest != "M" && firstResend > 0 {
+		if c.Manifest != "M" && c.Manifest != "I" && c.Manifest != "i" && firstResend > 0 {
 			fail("oneshot-resent", fmt.Sprintf("%d attempts with a one-shot body, attempt %d came after part of it was consumed", len(obs.log), firstResend))
 		}
 	case 'G':
@@ -738,16 +882,22 @@ func scriptCaseRun(t *testing.T, c *scriptCase) {
 		}
 	}
 	// O6: cancellation
-	if c.Cancel >= 0 {
+	if c.hasCancel() {
+		endAt := c.Cancel // the instant the call must be over
+		if endAt < 0 {
+			endAt = 0
+		}
 		for i, r := range obs.log {
-			if r.t > c.Cancel {
-				fail("cancel-ignored", fmt.Sprintf("attempt %d started at %d, after the context ended at %d", i, r.t, c.Cancel))
+			// the first request of the call is the caller's; every later one is a re-send decided by the stack
+			if i > 0 && (r.t > c.Cancel || r.ctxEnded) {
+				fail("cancel-ignored", fmt.Sprintf("attempt %d started at %d on a context that ended at %d", i, r.t, c.Cancel))
+				break
 			}
 		}
-		if obs.end > c.Cancel || (obs.res == "ECTX" && obs.end != c.Cancel) {
+		if obs.end > endAt || (obs.res == "ECTX" && obs.end != endAt) {
 			fail("cancel-late", fmt.Sprintf("call returned at %d, the context ended at %d", obs.end, c.Cancel))
 		}
-		if obs.end == c.Cancel && obs.res != "ECTX" {
+		if obs.end == endAt && obs.res != "ECTX" && !c.DefaultPolicy { // (random pauses may end exactly then)
 			fail("cancel-result", "call ended with the context but did not return its error")
 		}
 	}
@@ -771,7 +921,7 @@ func scriptCaseRun(t *testing.T, c *scriptCase) {
 		rewindErr := obs.res == "ENOTREWINDABLE" && c.Body[0] == 'O' || obs.res == "EGETBODY" && c.Body[0] == 'G'
 		if !ok && rewindErr && upload {
 			// blob push: the PUT was challenged (it did not inherit credentials from the POST)
-			if c.Op == "U" && last.beh.Kind == "S" && last.beh.Code == 401 && (last.beh.Chal == 1 || last.beh.Chal == 2) &&
+			if (c.Op == "U" || c.Op == "X") && last.beh.Kind == "S" && last.beh.Code == 401 && (last.beh.Chal == 1 || last.beh.Chal == 2) &&
 				len(sends[1]) == 0 && len(sends[2]) > 0 && len(sends[3]) == 0 {
 				ok = true
 			}
@@ -925,7 +1075,10 @@ var statusPool = []int{200, 201, 202, 204, 400, 401, 403, 404, 405, 408, 409, 41
 // Retry-After values: plain non-negative integers, and values no reasonable reading turns into
 // a delay.  (Left out on purpose: "+3", padded " 3", HTTP-dates -- honouring or rejecting them is
 // a legitimate choice the model should not pin down.)
-var retryAfterPool = []string{"", "", "", "1", "2", "120", "0", "-5", "abc", "99999999999999999999", "9223372036", "9223372037", "3.5", "0x10", "1_0", "007", "-", "18446744073709551617", "-99999999999999999999", "5s", "٣"}
+var retryAfterPool = []string{"", "", "", "1", "2", "120", "0", "-5", "abc", "99999999999999999999", "9223372036", "9223372037", "3.5", "0x10", "1_0", "007", "-", "18446744073709551617", "-99999999999999999999", "5s", "٣",
+	// strconv.ParseInt's own reading (the code as written): a sign is accepted, blanks are not;
+	// an HTTP-date is not understood (not honoured: falls back to the exponential backoff)
+	"+3", "+", " 3", "3 ", "Wed, 21 Oct 2015 07:28:00 GMT"}
 
 func genBehaviour(r *common.Rand, forAuth bool, evenLat bool) behaviour {
 	b := behaviour{Kind: "S", Read: -1}
@@ -991,7 +1144,7 @@ func genDuration(r *common.Rand) int64 {
 }
 
 func genScript(r *common.Rand, big bool) *scriptCase {
-	c := &scriptCase{Op: common.Pick(r, []string{"T", "T", "T", "A", "A", "A", "W", "W", "U", "U", "u"}), Cancel: -1}
+	c := &scriptCase{Op: common.Pick(r, []string{"T", "T", "T", "A", "A", "A", "W", "W", "V", "V", "U", "U", "u", "X", "X"}), Cancel: -1}
 	c.MaxRetry = common.Pick(r, []int{0, 1, 2, 3, 3, 5, 5, 8, -1})
 	c.Min = genDuration(r)
 	if c.Min < 0 && r.Chance(3, 4) {
@@ -1018,11 +1171,11 @@ func genScript(r *common.Rand, big bool) *scriptCase {
 			}
 		}
 	}
-	c.Body = common.Pick(r, []string{"N", "R", "R", "R", "O", "O", "G"})
+	c.Body = common.Pick(r, []string{"N", "B", "R", "R", "R", "O", "O", "G"})
 	if c.Body == "G" {
 		c.Body = fmt.Sprintf("G%d", r.Intn(4))
 	}
-	if c.Body != "N" {
+	if c.Body != "N" && c.Body != "B" {
 		sz := r.Intn(24)
 		if r.Chance(1, 10) {
 			sz = 0
@@ -1039,7 +1192,7 @@ func genScript(r *common.Rand, big bool) *scriptCase {
 			c.BigLen = 65536 + r.Intn(1<<20)
 		}
 	}
-	if c.Body != "N" && r.Chance(1, 3) {
+	if c.Body != "N" && c.Body != "B" && r.Chance(1, 3) {
 		c.UnknownLen = true
 	}
 	if r.Chance(1, 2) {
@@ -1051,12 +1204,31 @@ func genScript(r *common.Rand, big bool) *scriptCase {
 	if (c.Body == "R" || c.Body == "O") && !c.UnknownLen && !c.PreAuth && c.Method == "" && r.Chance(1, 3) {
 		// manifest push through the Repository: M = auth client, m = plain retrying client
 		c.Manifest = map[string]string{"A": "M", "T": "m"}[c.Op]
+		if c.Manifest != "" && r.Chance(1, 3) {
+			// an OCI image manifest without subject (valid JSON: the client looks for a subject after the push)
+			c.Manifest = map[string]string{"M": "I", "m": "i"}[c.Manifest]
+			c.Data = hex.EncodeToString([]byte(indexedManifestJSON))
+		}
 	}
 	ns := r.Intn(2*(maxInt(c.MaxRetry, 0)+1) + 3)
 	for i := 0; i < ns; i++ {
 		c.Script = append(c.Script, genBehaviour(r, c.Op != "T", true))
 	}
-	if c.Op == "U" || c.Op == "u" {
+	// partial reads relative to the body: around the middle, the last byte, buffer-sized pieces
+	if n := len(c.Data) / 2; n > 12 || c.BigLen > 0 {
+		if c.BigLen > 0 {
+			n = c.BigLen
+		}
+		for i := range c.Script {
+			if c.Script[i].Read >= 0 && r.Chance(2, 3) {
+				c.Script[i].Read = common.Pick(r, []int{n - 1, n / 2, n/2 + 1, 512, 4096, 32 * 1024, 32*1024 + 1, n - 4096})
+				if c.Script[i].Read < 0 || c.Script[i].Read > n {
+					c.Script[i].Read = n / 3
+				}
+			}
+		}
+	}
+	if c.Op == "U" || c.Op == "u" || c.Op == "X" {
 		// blob push: some answers for the POST, its 202, some answers for the PUT, its 201
 		if c.Body != "R" && c.Body != "O" {
 			c.Body = common.Pick(r, []string{"R", "O"})
@@ -1067,11 +1239,11 @@ func genScript(r *common.Rand, big bool) *scriptCase {
 		c.UnknownLen, c.Method, c.PreAuth, c.Manifest = false, "", false, ""
 		var sc []behaviour
 		for i := r.Intn(3); i > 0; i-- {
-			sc = append(sc, genBehaviour(r, c.Op == "U", true))
+			sc = append(sc, genBehaviour(r, c.Op != "u", true))
 		}
 		sc = append(sc, behaviour{Kind: "S", Code: 202, Read: -1, Lat: int64(r.Intn(20)) * 2})
 		for i := r.Intn(4); i > 0; i-- {
-			sc = append(sc, genBehaviour(r, c.Op == "U", true))
+			sc = append(sc, genBehaviour(r, c.Op != "u", true))
 		}
 		c.Script = append(sc, behaviour{Kind: "S", Code: 201, Read: -1})
 	}
@@ -1089,8 +1261,24 @@ func genScript(r *common.Rand, big bool) *scriptCase {
 		c.Script = append(c.Script, behaviour{Kind: "S", Code: 201, Read: -1})
 	}
 	if r.Chance(1, 4) {
-		// cancellation at an odd instant (all other instants are even: no ties), with pauses > 0
-		if c.Min <= 0 {
+		// cancellation at an odd instant (all other instants are even: the context never ends at
+		// the instant a timer of positive length fires); a third of the cases has zero-length
+		// pauses, where the timer and an already ended context are ready together
+		zero := r.Chance(1, 3)
+		if zero {
+			c.Min, c.Max = 0, int64(r.Intn(3))*2
+			for i := range c.Tbl {
+				c.Tbl[i] = 0
+			}
+			if r.Chance(2, 3) {
+				c.Dflt = 0
+			}
+			for i := range c.Script {
+				if c.Script[i].Lat == 0 && r.Chance(1, 2) {
+					c.Script[i].Lat = 2 + int64(r.Intn(20))*2 // give the context something to end in
+				}
+			}
+		} else if c.Min <= 0 {
 			c.Min = 2 + int64(r.Intn(100))*2
 		}
 		if c.Max < c.Min {
@@ -1121,7 +1309,10 @@ func genScript(r *common.Rand, big bool) *scriptCase {
 			span = 1 << 40
 		}
 		c.Cancel = int64(r.U64()%uint64(span+span/4))/2*2 + 1
-		c.Deadline = r.Chance(1, 3)
+		c.Deadline = r.Chance(1, 2)
+		if r.Chance(1, 10) {
+			c.Cancel = -3 // the context has ended before the call
+		}
 	}
 	return c
 }
@@ -1185,6 +1376,7 @@ func genPoint(r *common.Rand) *pointCase {
 var enumAlphabet = []behaviour{
 	{Kind: "S", Code: 503, Read: -1}, {Kind: "S", Code: 429, RetryAfter: "1", Read: 2, Lat: 10}, {Kind: "TO", Read: -1, Lat: 6}, {Kind: "ER", Read: 1}, {Kind: "E", Err: "op-emfile", Read: -1}, {Kind: "E", Err: "url-net10", Read: 2},
 	{Kind: "S", Code: 401, Chal: 1, Read: -1}, {Kind: "S", Code: 401, Chal: 2, Read: 3, Lat: 4}, {Kind: "S", Code: 200, Read: -1}, {Kind: "S", Code: 404, Read: 0},
+	{Kind: "S", Code: 201, Read: -1},
 }
 
 // enumScripts: every behaviour sequence up to maxLen x body kinds x stacks; with
@@ -1194,22 +1386,38 @@ func enumScripts(t *testing.T, maxLen int, allCancel bool) {
 	var rec func(prefix []behaviour)
 	rec = func(prefix []behaviour) {
 		if len(prefix) > 0 {
-			for _, op := range []string{"T", "A", "W"} {
-				for _, body := range []string{"N", "R", "O", "G1"} {
+			for _, op := range []string{"T", "A", "W", "V"} {
+				for _, body := range []string{"N", "B", "R", "O", "G1"} {
 					c := &scriptCase{Op: op, MaxRetry: 2, Min: 100, Max: 1000, Tbl: []int64{50, 5000}, Dflt: 300, Cancel: -1, Body: body,
 						Script: append([]behaviour(nil), prefix...)}
-					if body != "N" {
+					if body != "N" && body != "B" {
 						c.Data = "0102030405"
 						c.UnknownLen = len(prefix)%2 == 0
 					}
 					if !allCancel {
 						scriptCaseRun(t, c)
 						run.Count("enumerated")
+						if (op == "A" || op == "T") && (body == "R" || body == "O") && prefix[len(prefix)-1].Code == 201 {
+							// the same answers against a manifest push (auth client: buffering rule)
+							m := *c
+							m.UnknownLen, m.Manifest = false, map[string]string{"A": "M", "T": "m"}[op]
+							scriptCaseRun(t, &m)
+							im := m
+							im.Manifest, im.Data = map[string]string{"A": "I", "T": "i"}[op], hex.EncodeToString([]byte(indexedManifestJSON))
+							scriptCaseRun(t, &im)
+							run.Count("enumerated_manifest")
+						}
 						continue
 					}
 					c.Min, c.Max, c.Tbl, c.Dflt = 4, 20, []int64{2, 50}, 8
+					if len(prefix)%2 == 0 {
+						c.Min, c.Max, c.Tbl, c.Dflt = 0, 20, []int64{0, 0}, 0 // zero-length pauses
+					}
 					end := execScript(t, c).end
-					for tc := int64(1); tc <= end+3; tc += 2 {
+					for tc := int64(-3); tc <= end+3; tc += 2 {
+						if tc == -1 {
+							continue
+						}
 						cc := *c
 						cc.Cancel, cc.Deadline = tc, (tc/2)%2 == 1
 						scriptCaseRun(t, &cc)
@@ -1241,7 +1449,7 @@ func enumUploads(t *testing.T, maxLen int) {
 	var rec func(prefix []behaviour)
 	rec = func(prefix []behaviour) {
 		if len(prefix) > 0 {
-			for _, op := range []string{"U", "u"} {
+			for _, op := range []string{"U", "u", "X"} {
 				for _, body := range []string{"R", "O"} {
 					scriptCaseRun(t, &scriptCase{Op: op, MaxRetry: 2, Min: 100, Max: 1000, Tbl: []int64{50, 5000}, Dflt: 300, Cancel: -1,
 						Body: body, Data: "0102030405", Script: append([]behaviour(nil), prefix...)})
@@ -1257,6 +1465,252 @@ func enumUploads(t *testing.T, maxLen int) {
 		}
 	}
 	rec(nil)
+}
+
+// ---------------------------------------------------------------- token requests through the same stack (oracle only)
+
+// tokenScenario: a Bearer challenge makes the auth client fetch a token with an OAuth2 POST (form
+// body) through the same retrying client; the token service fails a few times first.  The token
+// request is a request "sent again" by the stack: same clauses (whole body on every attempt,
+// attempts bounded, pauses within bounds, non-retryable answers not retried).
+type tokenCase struct {
+	Op          string      `json:"op"` // K
+	MaxRetry    int         `json:"max_retry"`
+	Min         int64       `json:"min"`
+	Max         int64       `json:"max"`
+	Tbl         []int64     `json:"tbl"`
+	Dflt        int64       `json:"dflt"`
+	TokenScript []behaviour `json:"token_script"`
+	Data        string      `json:"data"`
+}
+
+func tokenScenario(t *testing.T, c *tokenCase) {
+	id := run.NewID()
+	data, _ := hex.DecodeString(c.Data)
+	sc := &scriptCase{MaxRetry: c.MaxRetry, Min: c.Min, Max: c.Max, Tbl: c.Tbl, Dflt: c.Dflt}
+	var tokenLog, regLog []attemptRec
+	res := ""
+	synctest.Test(t, func(t *testing.T) {
+		srv := &server{start: time.Now(), tokenScripted: true, tokenScript: c.TokenScript,
+			script: []behaviour{{Kind: "S", Code: 401, Chal: 2, Read: -1}, {Kind: "S", Code: 201, Read: -1}}}
+		pol := sc.policy()
+		hc := &http.Client{Transport: &retry.Transport{Base: srv, Policy: func() retry.Policy { return pol }}}
+		ac := &auth.Client{Client: hc, Cache: auth.NewCache(), ForceAttemptOAuth2: true,
+			Credential: auth.StaticCredential("registry.example", auth.Credential{Username: "u", Password: "p"})}
+		req, err := http.NewRequest(http.MethodPut, "http://registry.example/v2/r/blobs/uploads/1", bytes.NewReader(data))
+		if err != nil {
+			panic(err)
+		}
+		resp, err := ac.Do(req)
+		res = classify(resp, err, srv.lastShape, "")
+		if resp != nil {
+			resp.Body.Close()
+		}
+		tokenLog, regLog = srv.tokenLog, srv.log
+	})
+	run.Evaluations++
+	run.Count("token_scenarios")
+	run.Count(fmt.Sprintf("token_attempts_%d", len(tokenLog)))
+	if len(tokenLog) > 1 {
+		run.Nontrivial(fmt.Sprintf("token %+v", *c))
+	}
+	fail := func(sig, msg string) {
+		run.OracleFail(id, sig, fmt.Sprintf("%s (token request): %s; result %s, %d token attempts", sig, msg, res, len(tokenLog)), c)
+	}
+	// the whole form on every attempt: the longest body read to EOF is the reference
+	var full []byte
+	for _, r := range tokenLog {
+		if r.beh.Read < 0 && len(r.got) > len(full) {
+			full = r.got
+		}
+	}
+	if full != nil {
+		f := string(full)
+		if !strings.Contains(f, "grant_type=password") || !strings.Contains(f, "username=u") || !strings.Contains(f, "password=p") {
+			fail("body-truncated", fmt.Sprintf("the token form %q lacks its fields", f))
+		}
+		for i, r := range tokenLog {
+			want := full
+			if r.beh.Read >= 0 && r.beh.Read < len(want) {
+				want = want[:r.beh.Read]
+			}
+			if !bytes.Equal(r.got, want) {
+				fail("body-truncated", fmt.Sprintf("attempt %d received %q, the form is %q and the service read up to %d", i, r.got, full, r.beh.Read))
+				break
+			}
+			if r.clen != int64(len(full)) || r.method != http.MethodPost || r.url != tokenLog[0].url || r.ctype != tokenLog[0].ctype {
+				fail("request-changed", fmt.Sprintf("attempt %d: %s %s Content-Length %d Content-Type %q", i, r.method, r.url, r.clen, r.ctype))
+				break
+			}
+		}
+	}
+	limit := c.MaxRetry + 1
+	if limit < 1 {
+		limit = 1
+	}
+	if len(tokenLog) > limit {
+		fail("too-many-attempts", fmt.Sprintf("%d attempts, MaxRetry=%d", len(tokenLog), c.MaxRetry))
+	}
+	for i := 0; i+1 < len(tokenLog); i++ {
+		if !retryableTruth("", tokenLog[i].beh) {
+			fail("nonretryable-retried", fmt.Sprintf("attempt %d got %s and was followed by another attempt", i, outcomeTruth("", tokenLog[i].beh)))
+		}
+		pause := tokenLog[i+1].t - (tokenLog[i].t + tokenLog[i].beh.Lat)
+		if c.Min <= c.Max && (pause < c.Min || pause > c.Max) {
+			fail("pause-bounds", fmt.Sprintf("pause after attempt %d is %d, outside [%d,%d]", i, pause, c.Min, c.Max))
+		}
+	}
+	// the registry: the request again, whole, after the token arrived
+	for i, r := range regLog {
+		if !bytes.Equal(r.got, data) {
+			fail("body-truncated", fmt.Sprintf("registry request %d received %d of %d bytes", i, len(r.got), len(data)))
+		}
+	}
+}
+
+func genToken(r *common.Rand) *tokenCase {
+	c := &tokenCase{Op: "K", MaxRetry: common.Pick(r, []int{0, 1, 2, 3, 5}), Min: int64(r.Intn(50)) * 2, Dflt: int64(r.Intn(500)) * 2}
+	c.Max = c.Min + int64(r.Intn(2000))*2
+	for i := r.Intn(3); i > 0; i-- {
+		c.Tbl = append(c.Tbl, int64(r.Intn(5000))*2)
+	}
+	for i := r.Intn(5); i > 0; i-- {
+		b := genBehaviour(r, false, true)
+		if b.Kind == "S" && (b.Code == 200 || b.Code >= 300 && b.Code < 400) {
+			b.Code = 503
+		}
+		if b.Read >= 0 {
+			b.Read = r.Intn(80)
+		}
+		c.TokenScript = append(c.TokenScript, b)
+	}
+	d := make([]byte, r.Intn(40))
+	for i := range d {
+		d[i] = byte(r.Intn(256))
+	}
+	c.Data = hex.EncodeToString(d)
+	return c
+}
+
+// ---------------------------------------------------------------- real net/http transport (oracle only)
+
+// realTransportScenario: the same stack over net/http's own Transport and an httptest server
+// (HTTP/1.1, real sockets, asynchronous body writer): large bodies, answers sent before the
+// body was read (503 / 401 challenge), then a handler that reads to EOF.  Judged: whenever the
+// registry read a request to the end it got the whole original body and the announced
+// Content-Length; nothing about timing or the final status (an early answer may legitimately
+// surface as a connection error).
+type realCase struct {
+	Op      string `json:"op"` // R
+	Size    int    `json:"size"`
+	OneShot bool   `json:"one_shot"`
+	Plan    []int  `json:"plan"` // per request: status; negative = answer -status without reading the body
+	Auth    bool   `json:"auth"`
+}
+
+func realTransportScenario(c *realCase) {
+	id := run.NewID()
+	data := make([]byte, c.Size)
+	for i := range data {
+		data[i] = byte((i*31 + i/255) % 251)
+	}
+	want := sha256.Sum256(data)
+	type seen struct {
+		complete bool
+		n        int64
+		sum      [32]byte
+		clen     int64
+		readErr  error
+	}
+	var mu sync.Mutex
+	var log []seen
+	pos := 0
+	srv := httptest.NewServer(http.HandlerFunc(func(w http.ResponseWriter, r *http.Request) {
+		mu.Lock()
+		st := 201
+		if pos < len(c.Plan) {
+			st = c.Plan[pos]
+		}
+		pos++
+		mu.Unlock()
+		if st < 0 {
+			st = -st
+		} else {
+			h := sha256.New()
+			n, err := io.Copy(h, r.Body)
+			var s seen
+			s.complete, s.n, s.clen, s.readErr = err == nil, n, r.ContentLength, err
+			copy(s.sum[:], h.Sum(nil))
+			mu.Lock()
+			log = append(log, s)
+			mu.Unlock()
+		}
+		if st == 401 {
+			w.Header().Set("Www-Authenticate", `Basic realm="real"`)
+		}
+		w.WriteHeader(st)
+	}))
+	defer srv.Close()
+	tr := http.DefaultTransport.(*http.Transport).Clone()
+	defer tr.CloseIdleConnections()
+	pol := &retry.GenericPolicy{Retryable: retry.DefaultPredicate, Backoff: func(int, *http.Response) time.Duration { return time.Millisecond },
+		MinWait: time.Millisecond, MaxWait: 5 * time.Millisecond, MaxRetry: 4}
+	hc := &http.Client{Transport: &retry.Transport{Base: tr, Policy: func() retry.Policy { return pol }}}
+	var client remote.Client = hc
+	if c.Auth {
+		host := strings.TrimPrefix(srv.URL, "http://")
+		client = &auth.Client{Client: hc, Cache: auth.NewCache(), Credential: auth.StaticCredential(host, auth.Credential{Username: "u", Password: "p"})}
+	}
+	var body io.Reader = bytes.NewReader(data)
+	if c.OneShot {
+		body = &oneShot{bytes.NewReader(data)}
+	}
+	req, err := http.NewRequest(http.MethodPut, srv.URL+"/v2/r/blobs/uploads/1", body)
+	if err != nil {
+		panic(err)
+	}
+	req.ContentLength = int64(len(data))
+	resp, err := client.Do(req)
+	res := "ERR"
+	if err == nil {
+		res = fmt.Sprintf("RESP%d", resp.StatusCode)
+		io.Copy(io.Discard, resp.Body)
+		resp.Body.Close()
+	}
+	run.Evaluations++
+	run.Count("real_transport")
+	run.Count("real_transport_" + res)
+	mu.Lock()
+	defer mu.Unlock()
+	for i, s := range log {
+		switch {
+		case s.complete && (s.n != int64(len(data)) || s.sum != want):
+			run.OracleFail(id, "real-body-truncated", fmt.Sprintf("real transport: request %d read to EOF delivered %d bytes (want %d, digest ok=%v); result %s", i, s.n, len(data), s.sum == want, res), c)
+		case s.clen != int64(len(data)):
+			run.OracleFail(id, "request-changed", fmt.Sprintf("real transport: request %d announced Content-Length %d, want %d", i, s.clen, len(data)), c)
+		}
+		if s.complete {
+			run.Count("real_transport_complete_bodies")
+		}
+	}
+	if len(log) > 1 {
+		run.Nontrivial(fmt.Sprintf("real %+v", *c))
+	}
+}
+
+func genReal(r *common.Rand) *realCase {
+	c := &realCase{Op: "R", Size: (1 + r.Intn(8)) << 20, OneShot: r.Chance(1, 4), Auth: r.Chance(1, 2)}
+	for i := r.Intn(4); i > 0; i-- {
+		c.Plan = append(c.Plan, common.Pick(r, []int{503, -503, 429, -429, 500}))
+	}
+	if c.Auth && r.Chance(2, 3) {
+		c.Plan = append(c.Plan, common.Pick(r, []int{401, -401}))
+		if r.Chance(1, 2) {
+			c.Plan = append(c.Plan, common.Pick(r, []int{503, -503}))
+		}
+	}
+	c.Plan = append(c.Plan, 201)
+	return c
 }
 
 // ---------------------------------------------------------------- entry point
@@ -1282,12 +1736,24 @@ func replayCases(t *testing.T) {
 			continue
 		}
 		switch head.Op {
-		case "T", "A", "W", "U", "u":
+		case "T", "A", "W", "V", "U", "u", "X":
 			var c scriptCase
 			if err := json.Unmarshal(js, &c); err != nil {
 				panic(err)
 			}
 			scriptCaseRun(t, &c)
+		case "K":
+			var c tokenCase
+			if err := json.Unmarshal(js, &c); err != nil {
+				panic(err)
+			}
+			tokenScenario(t, &c)
+		case "R":
+			var c realCase
+			if err := json.Unmarshal(js, &c); err != nil {
+				panic(err)
+			}
+			realTransportScenario(&c)
 		case "B", "D":
 			var c pointCase
 			if err := json.Unmarshal(js, &c); err != nil {
@@ -1349,12 +1815,22 @@ func TestVerif(t *testing.T) {
 		for i := 0; i < run.Scale(300, 20000); i++ {
 			c := genScript(r, false)
 			c.DefaultPolicy, c.MaxRetry, c.Min, c.Max, c.Tbl, c.Dflt, c.Pred = true, dmr, dmin, dmax, nil, 0, ""
-			c.Cancel, c.Deadline = -1, false
+			if c.hasCancel() {
+				// aim into the default policy's pauses; odd instant (a tie with a random pause is harmless:
+				// the result is the context's error either way)
+				c.Cancel = int64(r.Intn(int(dmax/1000)*3))*2000 + 1
+			}
 			scriptCaseRun(t, c)
 		}
 	}
-	enumUploads(t, run.Scale(4, 6))
-	nScripts := run.Scale(2500, 500000)
+	for i := 0; i < run.Scale(6, 120); i++ {
+		realTransportScenario(genReal(r))
+	}
+	for i := 0; i < run.Scale(400, 20000); i++ {
+		tokenScenario(t, genToken(r))
+	}
+	enumUploads(t, run.Scale(4, 5))
+	nScripts := run.Scale(2500, 400000)
 	nPoints := run.Scale(20000, 4000000)
 	nBig := run.Scale(6, 200)
 	for i := 0; i < nScripts; i++ {
